@@ -55,6 +55,9 @@ type C19Sc struct {
 	// Late (server drivers, with Cut): the second registration call happens after the executor has already served a
 	// request; the requests under test come afterwards and must see the whole chain
 	Late bool `json:"late,omitempty"`
+	// CorePanic (batch-item chain): the operation handler panics on every execution. The executor turns the panic into
+	// a failed item, and that failed item is the result the innermost stage receives from its continuation
+	CorePanic bool `json:"core_panic,omitempty"`
 }
 
 func genStage(g *simrt.Tape) StageSc {
@@ -98,6 +101,7 @@ func genC19(g *simrt.Tape, tier string) any {
 		sc.Sibling = 1 + g.Draw(2)
 	}
 	sc.Late = sc.Cut > 0 && sc.Driver != "client" && g.Draw(2) == 0
+	sc.CorePanic = sc.Driver == "server-item" && g.Draw(6) == 0
 	return sc
 }
 
@@ -150,6 +154,9 @@ func c19Floor(tier string) []*C19Sc {
 			fsc := &C19Sc{Driver: d, Stages: append([]StageSc{}, prefix...), Requests: 1}
 			guardClientChain(fsc)
 			out = append(out, fsc)
+			if d == "server-item" && l <= 2 {
+				out = append(out, &C19Sc{Driver: d, Stages: append([]StageSc{}, prefix...), Requests: 1, CorePanic: true})
+			}
 			if l == maxLen {
 				return
 			}
@@ -182,6 +189,8 @@ func c19Floor(tier string) []*C19Sc {
 type chainModel struct {
 	stages []StageSc
 	trace  []string
+	// panicIn: when not empty the core panics; the value is the request name the panic message mentions
+	panicIn string
 }
 
 // markDone tells whether a context with this marker is cancelled: "!" marks a cancellation, "+" a detachment.
@@ -207,6 +216,9 @@ func handDown(st StageSc, mark string, i, k int) string {
 func (m *chainModel) run(i int, ctxMark, msgMark string) (string, bool) {
 	if i == len(m.stages) {
 		m.trace = append(m.trace, fmt.Sprintf("core ctx=%s msg=%s", ctxMark, msgMark))
+		if m.panicIn != "" {
+			return "failed:panic(string) in " + m.panicIn + msgMark, false // a failed item, not an error
+		}
 		return "core:" + msgMark, false
 	}
 	st := m.stages[i]
@@ -564,7 +576,11 @@ func execC19(x *X, scAny any) {
 	finals := map[string]string{}
 	done := 0
 	mkReq := func(j int) *kmip.RequestMessage {
-		return buildRequest(&ReqSc{Version: 4, Items: []ItemSc{{Tok: "y1,ok", NoID: true}}}, fmt.Sprintf("q%d", j))
+		tok := "y1,ok"
+		if sc.CorePanic {
+			tok = "y1,ps"
+		}
+		return buildRequest(&ReqSc{Version: 4, Items: []ItemSc{{Tok: tok, NoID: true}}}, fmt.Sprintf("q%d", j))
 	}
 	reqName := func(j int) string { return fmt.Sprintf("q%d.0", j) }
 
@@ -753,6 +769,9 @@ func execC19(x *X, scAny any) {
 	for j := 0; j < sc.Requests; j++ {
 		name := reqName(j)
 		m := &chainModel{stages: programStages(sc.Stages)}
+		if sc.CorePanic {
+			m.panicIn = name
+		}
 		wantRes, wantErr := m.run(0, "", "")
 		want := m.trace
 		got := cr.traces[name]
